@@ -94,36 +94,84 @@ fn c05_fragments_compound() {
     kani::cover!(n == 2 && z0 != 1.0 && dz != 0.0, "two fragments at different depths");
 }
 
-/// F3 quick forms: a single fragment of each compound type
+/// F3 quick forms: compound attribute types, two fragments whose reciprocal
+/// depths are powers of two (z0 in {1/2,1,2,4}, second fragment 2*z0), so that
+/// the division is exact and the oracle (multiply by the exact reciprocal)
+/// shares no circuit with the code under test.
+fn pow2_depth() -> (f32, f32) {
+    let i: u8 = kani::any();
+    kani::assume(i < 4);
+    let z0 = [0.5f32, 1.0, 2.0, 4.0][i as usize];
+    let rz = [2.0f32, 1.0, 0.5, 0.25][i as usize];
+    (z0, rz)
+}
 #[kani::proof]
 #[kani::unwind(4)]
 fn c05_fragments_color() {
-    let z0 = fin(1e-3, 1e3);
+    let (z0, rz) = pow2_depth();
     let a: [f32; 3] = [fin(-8.0, 8.0), fin(-8.0, 8.0), fin(-8.0, 8.0)];
-    let mut s3: Scanline<Color3f> = Scanline { y: 0, xs: 0..1,
-        vs: VIter { val: (pt3(0.5, 0.5, z0), rgb(a[0], a[1], a[2])), step: (vec3::<f32, Screen>(1.0, 0.0, 0.0), rgb(0.0, 0.0, 0.0)), n: Some(1) } };
+    let d: [f32; 3] = [fin(-1.0, 1.0), fin(-1.0, 1.0), fin(-1.0, 1.0)];
+    let mut s3: Scanline<Color3f> = Scanline { y: 0, xs: 0..2,
+        vs: VIter { val: (pt3(0.5, 0.5, z0), rgb(a[0], a[1], a[2])), step: (vec3::<f32, Screen>(1.0, 0.0, z0), rgb(d[0], d[1], d[2])), n: Some(2) } };
     let mut it = s3.fragments();
     let f = it.next().unwrap();
     assert!(f.pos.z() == z0);
-    assert!(f.var.r() == a[0] / z0 && f.var.g() == a[1] / z0 && f.var.b() == a[2] / z0);
+    assert!(f.var.r() == a[0] * rz && f.var.g() == a[1] * rz && f.var.b() == a[2] * rz);
+    let g = it.next().unwrap();
+    assert!(g.pos.z() == 2.0 * z0 && g.pos.x() == 1.5);
+    assert!(g.var.r() == (a[0] + d[0]) * (rz * 0.5) && g.var.g() == (a[1] + d[1]) * (rz * 0.5) && g.var.b() == (a[2] + d[2]) * (rz * 0.5));
     assert!(it.next().is_none());
-    kani::cover!(z0 > 2.0 && a[0] > 1.0, "depth other than one");
+    kani::cover!(z0 > 1.0 && a[0] > 1.0, "depth other than one");
 }
 #[kani::proof]
 #[kani::unwind(4)]
 fn c05_fragments_vec() {
-    let z0 = fin(1e-3, 1e3);
+    let (z0, rz) = pow2_depth();
     let a: [f32; 3] = [fin(-8.0, 8.0), fin(-8.0, 8.0), fin(-8.0, 8.0)];
     let pos = pt3(0.5, 0.5, z0);
     let dpos = vec3::<f32, Screen>(1.0, 0.0, 0.0);
     let mut s1: Scanline<(f32, Vec3)> = Scanline { y: 0, xs: 0..1,
         vs: VIter { val: (pos, (a[0], vec3(a[0], a[1], a[2]))), step: (dpos, (0.0, vec3(0.0, 0.0, 0.0))), n: Some(1) } };
     let mut s2: Scanline<Vec2> = Scanline { y: 0, xs: 0..1, vs: VIter { val: (pos, vec2(a[0], a[1])), step: (dpos, vec2(0.0, 0.0)), n: Some(1) } };
+    let mut s4: Scanline<()> = Scanline { y: 0, xs: 0..1, vs: VIter { val: (pos, ()), step: (dpos, ()), n: Some(1) } };
     let f1 = s1.fragments().next().unwrap();
     let f2 = s2.fragments().next().unwrap();
-    assert!(f1.var.0 == a[0] / z0 && f1.var.1.x() == a[0] / z0 && f1.var.1.y() == a[1] / z0 && f1.var.1.z() == a[2] / z0);
-    assert!(f2.var.x() == a[0] / z0 && f2.var.y() == a[1] / z0);
-    kani::cover!(z0 > 2.0 && a[0] > 1.0, "depth other than one");
+    assert!(f1.var.0 == a[0] * rz && f1.var.1.x() == a[0] * rz && f1.var.1.y() == a[1] * rz && f1.var.1.z() == a[2] * rz);
+    assert!(f2.var.x() == a[0] * rz && f2.var.y() == a[1] * rz);
+    assert!(f1.pos.z() == z0 && f2.pos.z() == z0);
+    assert!(s4.fragments().count() == 1);
+    kani::cover!(z0 > 1.0 && a[0] > 1.0, "depth other than one");
+}
+
+/// depth through scan(): reciprocal depth is an affine function of the screen
+/// position (z = 1 + (p*x + q*y)/8 at the lattice corners); every fragment
+/// carries the plane's value at its own pixel centre (pre-stepped in x and y).
+#[kani::proof]
+#[kani::unwind(6)]
+fn c05_scan_depth() {
+    use re::render::raster::scan;
+    let (y0, y1) = (lat(0, 2 * G), lat(0, 2 * G));
+    kani::assume(y0 < y1);
+    let (lx0, lx1, rx0, rx1) = (lat(0, 2 * G), lat(0, 2 * G), lat(0, 2 * G), lat(0, 2 * G));
+    kani::assume(lx0 <= rx0 && lx1 <= rx1 && (lx0 < rx0 || lx1 < rx1));
+    let (p, q) = (int(0, 2), int(0, 2));
+    let zat = |x: i32, y: i32| 1.0 + (p * x + q * y) as f32 * 0.0625;
+    let v = |x: i32, y: i32| (pt3(x as f32 * 0.5, y as f32 * 0.5, zat(x, y)), ());
+    let (l0, l1, r0, r1) = (v(lx0, y0), v(lx1, y1), v(rx0, y0), v(rx1, y1));
+    let mut ok = true;
+    let mut frags = 0u32;
+    for mut sl in scan(y0 as f32 * 0.5..y1 as f32 * 0.5, &l0..&l1, &r0..&r1) {
+        let cy = sl.y as f32 + 0.5;
+        let mut cx = sl.xs.start as f32 + 0.5;
+        for f in sl.fragments() {
+            let want = 1.0 + (p as f32 * cx + q as f32 * cy) * 0.125;
+            if !((f.pos.z() - want).abs() <= 1e-3) { ok = false; }
+            cx += 1.0;
+            frags += 1;
+        }
+    }
+    assert!(ok);
+    kani::cover!(frags >= 3 && p != 0 && q != 0 && lx0 != lx1, "several fragments, slanted edge, sloped depth");
 }
 
 /// F1 (quick form): one trapezoid straight through scan() + fragments(): edges on
